@@ -523,6 +523,15 @@ func (m *Model) applyZSet(o Op) Exp {
 		return Exp{R: rInt(0)}
 	case "zfixkey":
 		m.dev("D7")
+		// D8: ZFixKey compares the size read with the LOG time against ZRange,
+		// which filters with the WALL clock; when the clocks disagree about the
+		// expiry it "repairs" the size to 0, i.e. deletes the meta.
+		if e := m.zset[tk]; e != nil && m.Policy == PolicyCompact && e.exp != 0 && m.Wall != 0 {
+			if m.expiredW(e.exp, o.Ts) != m.expiredR(e.exp) {
+				m.dev("D8-zfixkey-clock")
+				return Exp{Skip: "ZFIXKEY while log time and wall clock disagree about the expiry (D8)", Abort: true}
+			}
+		}
 		return Exp{R: rOK()}
 	case "zexpire":
 		e := m.zsetW(tk, o.Ts)
